@@ -610,7 +610,15 @@ def correspond(ctx):
   # ---- histories ------------------------------------------------------------------------
   for h in range(n_hist):
     case = TINY[h] if h < len(TINY) else gen_case(rng, pool, structs)
-    reals, fracs = run_history(impl, case, exact=True)
+    try:
+      reals, fracs = run_history(impl, case, exact=True)
+    except ZeroDivisionError:
+      # the implementation's own jaxpr divides by zero on a history inside the quantifier (first batch weight > 0):
+      # in float arithmetic that is a NaN/inf statistic — the population statistics are well defined there
+      spec_failures.append(dict(key='C18:division_by_zero', what='update divides by zero on a valid history (a later '
+                                'batch of total weight 0?): statistics become non-finite', case=case,
+                                failures=['ZeroDivisionError in the exact evaluation of the implementation']))
+      continue
     key = hashlib.sha1(repr((case['leaves'], case['batches'])).encode()).hexdigest()
     N = sum(len(batch_weights(b)) for b in case['batches'])
     if N >= 2:
